@@ -303,3 +303,22 @@ def c19_stage(pid, tier, seed):
     new = report_simple(pid, [tuple(x) for x in res["items"]], lambda cl, cls: "hostile broker bytes (%s mutations): %s" % (cls, cl))
     return dict(name="C19 hostile broker bytes under ASan/UBSan", states=res["states"], transitions=res["states"], violations=new,
                 vectors=res["scen"], events=res["events"], samples=res["samples"])
+
+
+def l1_recv(pid, tier, seed):
+    """exhaustive TLC runs of the inbound-side model Recv.tla.  MCRecv.lossy.cfg (a delivered write may fail) MUST
+    violate CompletedIsDelivered / NoPubrelUnanswered: that is the model-level account of the open findings F5 / F10."""
+    out = dict(name="L1 Recv.tla", states=0, transitions=0, violations=0, runs=[], samples=[])
+    for cfg in ["MCRecv.cfg"] + (["MCRecv.thorough.cfg"] if tier == "thorough" else []):
+        r = run_model("MCRecv.tla", cfg, ["Recv.tla", "MCRecv.tla"], workers=8)
+        out["states"] += r["distinct"]; out["transitions"] += r["generated"]
+        out["runs"].append({k: r[k] for k in ("cfg", "generated", "distinct", "depth", "violated", "wall", "cached")})
+        for inv in r["violated"]:
+            out["violations"] += 1
+            log("VIOLATION property=%s replay=%s model=%s invariant=%s" % (pid, r["replay"], cfg, inv))
+    r = run_model("MCRecv.tla", "MCRecv.lossy.cfg", ["Recv.tla", "MCRecv.tla"], workers=8)
+    out["runs"].append({k: r[k] for k in ("cfg", "generated", "distinct", "depth", "violated", "wall", "cached")})
+    if not r["violated"]:
+        raise CheckError("model self-test: MCRecv.lossy.cfg no longer shows F5/F10 (update known_findings.json and the model)")
+    out["samples"].append(dict(model="MCRecv.tla", note="inbound QoS 1/2 exchanges, broker retransmission, session loss; one action per handler body"))
+    return out
